@@ -98,6 +98,16 @@ def codegen(wd, crate, features=(), rustflags="", harness_filters=None, cfg_miri
     return out, time.time() - t0, r.stdout
 
 
+def source_harnesses(crate):
+    """harness names defined in the crate's sources (macro invocations and plain proofs)"""
+    names = []
+    for fn in sorted(glob.glob(os.path.join(VERIF, crate, "src", "*.rs"))):
+        src = open(fn).read()
+        names += re.findall(r"^\s*harness!\(\s*(\w+)\s*,", src, re.M)
+        names += re.findall(r"#\[kani::proof\]\s*(?:#\[[^\]]*\]\s*)*fn (\w+)\(", src)
+    return sorted(set(names))
+
+
 def _limit(mem_gb):
     def f():
         lim = int(mem_gb * (1 << 30))
